@@ -117,6 +117,26 @@ func mutate(path string) []mutant {
 	return out
 }
 
+// identSwaps: copy-paste style confusions between sibling names.
+var identSwaps = map[string][]string{
+	"AtomType": {"SeparatorType"}, "SeparatorType": {"AtomType"},
+	"Allow": {"Require", "Exclude"}, "Require": {"Allow", "Exclude"}, "Exclude": {"Allow", "Require"},
+	"AllowChars": {"ExcludeChars"}, "ExcludeChars": {"AllowChars"},
+	"CSRandom": {"CSOne"}, "CSOne": {"CSRandom", "CSFirst"}, "CSFirst": {"CSAll"}, "CSAll": {"CSFirst"}, "CSNone": {"CSFirst"},
+	"Union": {"Difference", "Intersect"}, "Difference": {"Union", "Intersect"},
+	"allowedSet": {"requiredSets"}, "allowedChars": {"excludedChars"}, "excludedChars": {"allowedChars"}, "excludedSet": {"allowedSet"},
+	"Uppers": {"Lowers"}, "Lowers": {"Uppers"}, "Digits": {"Symbols"}, "Symbols": {"Digits"}, "Ambiguous": {"Digits"},
+	"Length": {"Size"}, "SeparatorChar": {"Capitalize"},
+	"Entropy": {"SuccessProbability"}, "Atoms": {"Separators"}, "Separators": {"Atoms"},
+	"AgileWords": {"AgileSyllables"}, "AgileSyllables": {"AgileWords"},
+	"SFDigits1": {"SFDigits2"}, "SFNone": {"SFDigits1"}, "MaxUint8": {"MaxUint16"},
+	"CharacterIndexKind": {"VarAtomsIndexKind"}, "VarAtomsIndexKind": {"AlternatingIndexKind"}, "AlternatingIndexKind": {"FullIndexKind"}, "FullIndexKind": {"AlternatingIndexKind"},
+	"ExitUsage": {"ExitCatchall"}, "ExitCatchall": {"ExitUsage", "ExitSuccess"},
+	"flagAllow": {"flagRequire"}, "flagRequire": {"flagExclude"}, "flagExclude": {"flagAllow"}, "flagSeparator": {"flagCapitalize"}, "flagEntropyWL": {"flagEntropyCR"},
+	"charactersCommand": {"wordlistCommand"}, "wordlistCommand": {"charactersCommand"},
+	"Println": {"Print"}, "Stderr": {"Stdout"},
+}
+
 var relFlip = map[token.Token][]token.Token{
 	token.LSS: {token.LEQ, token.GEQ},
 	token.LEQ: {token.LSS, token.GTR},
@@ -179,7 +199,18 @@ func visit(f *ast.File, point func(pos int, desc string, apply func())) {
 				point(int(x.If), "if condition -> false (body never runs)", func() { x.Cond = ast.NewIdent("false") })
 				point(int(x.If), "if condition -> true (body always runs)", func() { x.Cond = ast.NewIdent("true") })
 			}
+		case *ast.SelectorExpr:
+			for _, alt := range identSwaps[x.Sel.Name] {
+				alt, old := alt, x.Sel.Name
+				point(int(x.Sel.NamePos), old+" -> "+alt+" (selector)", func() { x.Sel.Name = alt })
+			}
 		case *ast.Ident:
+			if x.Obj == nil {
+				for _, alt := range identSwaps[x.Name] {
+					alt, old := alt, x.Name
+					point(int(x.NamePos), old+" -> "+alt+" (identifier)", func() { x.Name = alt })
+				}
+			}
 			if x.Name == "true" && x.Obj == nil {
 				point(int(x.NamePos), "true -> false", func() { x.Name = "false" })
 			} else if x.Name == "false" && x.Obj == nil {
@@ -203,6 +234,16 @@ func visit(f *ast.File, point func(pos int, desc string, apply func())) {
 				i := i
 				if bl, ok := a.(*ast.BasicLit); ok && bl.Kind == token.STRING && bl.Value == `""` {
 					point(int(bl.ValuePos), `"" -> "x" (call argument)`, func() { x.Args[i] = &ast.BasicLit{Kind: token.STRING, Value: `"x"`} })
+				}
+			}
+			// append(a, b) -> a ; strings.Title(x) -> x
+			if id, ok := x.Fun.(*ast.Ident); ok && id.Name == "append" && len(x.Args) == 2 && x.Ellipsis == token.NoPos {
+				// cannot replace the node from here (no parent): turn the call into append(a) which is `a`
+				point(int(x.Lparen), "append(a, b) -> append(a)", func() { x.Args = x.Args[:1] })
+			}
+			if sel, ok := x.Fun.(*ast.SelectorExpr); ok && len(x.Args) == 1 {
+				if pk, isID := sel.X.(*ast.Ident); isID && pk.Name == "strings" && sel.Sel.Name == "Title" {
+					point(int(x.Lparen), "strings.Title(x) -> strings.TrimSpace(x)", func() { sel.Sel.Name = "TrimSpace" })
 				}
 			}
 			if len(x.Args) == 2 {
